@@ -122,7 +122,35 @@ func genRefCase(r *rng, id string) *ValCase {
 		if r.chance(1, 3) {
 			rdefs = append(rdefs, DMem{"toroot", DObj{{"$ref", DStr(effBase + "#/$defs/" + pointerEscape(defs[0].K))}}})
 		}
+		// a resource embedded in the loaded document: its URI names it only inside that document;
+		// a reference to the same URI from another document asks the loader (which may know a
+		// different, standalone document under that URI)
+		var embURI, embMarker, aloneMarker string
+		if r.chance(1, 2) {
+			eid := fmt.Sprintf("emb%d.json", i)
+			baseOfDoc := ruri
+			if canon != "" {
+				baseOfDoc = canon
+			}
+			embURI = resolveURI(baseOfDoc, eid)
+			et, em := target(DMem{"$id", DStr(eid)})
+			embMarker = em
+			rdefs = append(rdefs, DMem{"embres", et})
+			if r.chance(2, 3) {
+				at, am := target()
+				aloneMarker = am
+				c.Universe = append(c.Universe, UniDoc{embURI, at})
+			}
+		}
 		rdoc = append(rdoc, DMem{"$defs", rdefs})
+		if embURI != "" {
+			targets = append(targets, refTarget{embMarker, []string{rel + "#/$defs/embres"}})
+			if aloneMarker != "" {
+				targets = append(targets, refTarget{aloneMarker, []string{embURI}})
+			} else if r.chance(1, 3) {
+				targets = append(targets, refTarget{"-", []string{embURI}}) // nobody knows it: Resolve must fail
+			}
+		}
 		if r.chance(1, 14) {
 			c.Universe = append(c.Universe, UniDoc{ruri, nil}) // the loader fails for this URI
 		} else {
@@ -215,6 +243,8 @@ func genDynCase(r *rng, id string) *ValCase {
 		remote = r.intn(n)
 	}
 	c := &ValCase{ID: id}
+	inPlaceHolder := false
+	needSide := false
 	resDoc := func(k int) DObj {
 		o := DObj{{"$id", DStr(fmt.Sprintf("%sr%d", base, k))}}
 		sub := DObj{}
@@ -243,7 +273,12 @@ func genDynCase(r *rng, id string) *ValCase {
 				o = append(o, DMem{"if", DBool(true)}, DMem{"then", hop})
 			}
 		} else {
-			form := pick(r, []string{"#node", "#node", fmt.Sprintf("r%d#node", r.intn(n)), "#/$defs/n", fmt.Sprintf("r%d", r.intn(n))})
+			form := pick(r, []string{"#node", "#node", fmt.Sprintf("r%d#node", r.intn(n)), "#/$defs/n", fmt.Sprintf("r%d", r.intn(n)), "side#node", "side#node"})
+			if form == "side#node" {
+				// the lexical target lives in a resource that is never entered: only the dynamic
+				// scope (which includes the holder's own resource) can pick another one
+				needSide = true
+			}
 			if form == "#/$defs/n" && len(sub) == 0 {
 				form = "#node"
 			}
@@ -260,7 +295,18 @@ func genDynCase(r *rng, id string) *ValCase {
 			if r.chance(1, 6) {
 				kw = "$ref"
 			}
-			o = append(o, DMem{"properties", DObj{{"x", DObj{{kw, DStr(form)}}}}})
+			if r.chance(1, 3) && strings.Contains(form, "node") {
+				// the reference sits on the resource root itself: the holder is the first schema of
+				// its resource to be entered, and belongs to its own dynamic scope
+				if _, has := o.get("$ref"); !has || kw != "$ref" {
+					o = append(o, DMem{kw, DStr(form)})
+					inPlaceHolder = true
+				} else {
+					o = append(o, DMem{"properties", DObj{{"x", DObj{{kw, DStr(form)}}}}})
+				}
+			} else {
+				o = append(o, DMem{"properties", DObj{{"x", DObj{{kw, DStr(form)}}}}})
+			}
 		}
 		if len(sub) > 0 {
 			o = append(o, DMem{"$defs", sub})
@@ -278,6 +324,12 @@ func genDynCase(r *rng, id string) *ValCase {
 		default:
 			defs = append(defs, DMem{fmt.Sprintf("r%d", k), d})
 		}
+	}
+	if needSide {
+		mk++
+		m := fmt.Sprintf("m%d", mk)
+		markers = append(markers, m)
+		defs = append(defs, DMem{"side", DObj{{"$id", DStr(base + "side")}, {"$defs", DObj{{"n", DObj{{"$dynamicAnchor", DStr("node")}, {"const", DStr(m)}}}}}}})
 	}
 	if len(defs) > 0 {
 		// merge with the root's own $defs
@@ -328,6 +380,11 @@ func genDynCase(r *rng, id string) *ValCase {
 			for _, m2 := range markers {
 				c.Insts = append(c.Insts, canonInst(DObj{{"x", DStr(m1)}, {"y", DObj{{"x", DStr(m2)}}}}))
 			}
+		}
+	}
+	if inPlaceHolder {
+		for _, m := range markers {
+			c.Insts = append(c.Insts, canonInst(DStr(m)))
 		}
 	}
 	// a history of calls on one Resolved: every marker, twice, interleaved with a stranger
